@@ -665,3 +665,6 @@ def r06_10(ctx):
 
     operand_order(ctx)
     return_positions_lint(ctx)
+    from .c17 import maximal_munch_checks
+
+    maximal_munch_checks(ctx)  # x++ / x-- are operations of their own in every reading of the text (otherwise the operation vanishes)
